@@ -58,7 +58,7 @@ def numeric_ref(t):
     return '&#' + body + (';' if not t.chance(30) else '')
 
 
-INLINE += ['\u0663.', '\u0967)', '\uff11.', '</body>', '<body>', '</html>', '<head>', '</script>', '<title>', 'a\tb', 'foo\tbar', 'x\t', 'a>\tb', 'q>\t', '&#1114111;', '&#1114112;', '&#x10FFFF;', '&#x110000;', '&#xD800;', '&#9999999;', '&#xFFFFFF;', '&#128;', '&#x80;', '\x00', '\ufeff']
+INLINE += ['</pre></div>', '<div class="highlight"><pre>', '\u0663.', '\u0967)', '\uff11.', '</body>', '<body>', '</html>', '<head>', '</script>', '<title>', 'a\tb', 'foo\tbar', 'x\t', 'a>\tb', 'q>\t', '&#1114111;', '&#1114112;', '&#x10FFFF;', '&#x110000;', '&#xD800;', '&#9999999;', '&#xFFFFFF;', '&#128;', '&#x80;', '\x00', '\ufeff']
 
 
 def line_doc(t, max_lines=14):
@@ -86,6 +86,7 @@ def line_doc(t, max_lines=14):
 
 
 EXTRA = [
+    '<div><pre>x\n</pre></div>\n\n<span>y</span>\n', '<!-- </pre></div>\n\n<x -->\n\ntext\n', '<script>\na = "</pre></div>"\n\n< b\n</script>\n',
     '| a | b |\n|---|---|\n| c | d |\n',
     '| left | center | right |\n|:-----|:------:|------:|\n| *1* | `2` | [3](u) |\n| 4 | 5 |\n',
     'a | b\n- | -\nc | d\n\npara\n',
@@ -163,9 +164,14 @@ SNIPPETS = ['*', '_', '`', '[', ']', '](', '<a ', '<!--', '&#', '\\', '> ', '- '
             '[a]', '[a][', '[]', '<b', '</', '<?', '<!', '\n', ' \n', '  \n', '\\\n', '\t', '    ', '#', '# ', '=', '-', '--',
             '***', '* ', '+ ', '>', '>>', '> > ', '- - ', '1) ', '|', '|-', '-|', ':-', '$', '$$', '[[', ']]', '{{', '}}',
             '{{a}}\n', '{{/a}}', 'a\n', 'a\n\n', '\n\n', '[a]:', '[a]: b\n', ' "', '<a@', '<a:', 'http://', '&a', ';', '&#x',
-            ' ', '中', '*a*', '_a_', '**a**', '`a`', '[a](b)', '<b>']
+            ' ', '中', '*a*', '_a_', '**a**', '`a`', '[a](b)', '<b>',
+            # every backslash escape, and an escape followed by a letter (alternatives that overlap in a pattern blow up here)
+            '\\~', '\\*', '\\_', '\\`', '\\[', '\\]', '\\(', '\\)', '\\<', '\\>', '\\$', '\\|', '\\&', '\\"', "\\'", '\\\\', '\\~a', '\\*a', 'a\\$']
 FRAMES = [('', ''), ('a', 'a'), ('> ', ''), ('- ', ''), ('# ', ''), ('[', '](u)'), ('*', '*'), ('`', '`'), ('', '\n'),
-          ('| a |\n|---|\n| ', ' |'), ('[a]: ', '')]
+          ('| a |\n|---|\n| ', ' |'), ('[a]: ', ''),
+          # an opener that is never closed, in front of the repetition
+          ('~~', ''), ('**', ''), ('$', ''), ('$$', ''), ('[[', ''), ('{{', ''), ('<', ''), ('![', ''), ('``', ''), ('[a](', ''), ('[a]: /u "', ''), ('<!--', ''),
+          ('```', ''), ('~~a', 'b~~'), ('[', ']')]
 
 
 def pumped(t, max_len=4096):
